@@ -90,6 +90,13 @@ class C03(Spec):
                 elif r < 0.2:
                     w.u("%zz")
                     hdrs = ["Location: %zz"]
+                elif r < 0.27:
+                    # headers whose NAME merely ends in "location": not the Location header
+                    decoy = w.url(0, "/decoy")
+                    w.u(decoy)
+                    w.serve(decoy, netgen.ok_json({"type": "Note", "content": "decoy"}))
+                    name = rng.choice(["Content-Location", "X-Location", "content-location", "Relocation"])
+                    hdrs = rng.choice([[name + ": " + decoy], [name + ": " + decoy, "Location: " + loc], ["Server: location: " + decoy, "Location: " + loc]])
                 w.serve(nodes[i], netgen.http_response(status="HTTP/1.1 %d x" % rng.choice((301, 302, 303, 307, 308, 300, 399)), headers=hdrs, body=b""))
             if cyclic:
                 w.serve(nodes[n], netgen.redirect(nodes[rng.randrange(n + 1)]))
